@@ -12,7 +12,9 @@ Pages are addressed by file offset, exactly as in the code; pointer mutation bec
 "write the node back under its offset".  The page cache is unbounded here (the default
 capacity of 10000 pages is never reached by the workloads compared; eviction is C15/C16).
 Only the branch of `insertLeaf` taken for ascending keys is modelled: the other branch
-(`insertInternalCell`, sibling re-linking) is the outcome `.unmodelled`.
+(`insertInternalCell`, sibling re-linking) is the outcome `.unmodelled`, and so is an append to a
+leaf that has a right sibling (the leaf object may have been split since it was loaded: then the
+code computes a wrong physical slot, see `insertLeaf`).
 -/
 namespace Mkdb.Store
 open Mkdb.Page Mkdb.Tuple Mkdb.Generated
@@ -156,6 +158,11 @@ def insertLeaf (parent : Option Nat) (cur : Leaf) (key lsn : Nat) (value : Bytes
   if found then throw .keyExists else
   if value.length > c_maxValueSize then throw .rowTooLarge else
   if pos != cur.cells.length then unmodelledS "insertLeafCell: not at the end of the leaf" else
+  -- `btreeNode.split` truncates only `offsets`: the moved cells stay in `leafCells`, and `insertLeafCell`
+  -- takes `len(n.leafCells)` as the physical slot.  A leaf object that was split and is still resident
+  -- gets offsets like `0,1,2,3,9` on its next append (the page no longer decodes).  The model has no
+  -- physical slots; a leaf with a right sibling may be such an object (conservative: a reloaded one is not)
+  if cur.hasR then unmodelledS "insertLeafCell: append to a leaf that was split (physical slot)" else
   let cur1 : Leaf := { cur with cells := cur.cells ++ [⟨key, false, value⟩], lsn := lsn }
   putNode (.leaf cur1) (some true)
   if !isFullLeaf cur1 then pure root else
@@ -191,7 +198,13 @@ def insertLeaf (parent : Option Nat) (cur : Leaf) (key lsn : Nat) (value : Bytes
           pure root
         else unmodelledS "insertLeaf: split of a leaf that is not the rightmost"
 
-/-- `insertInternal(parent, cur, key, lsn, value)` -/
+/-- `insertInternal(parent, cur, key, lsn, value)`.
+An internal node object that was split and is still resident has the same defect as a leaf
+(`appendInternalCell` takes `len(offsets)` as the slot, the cell goes to the end of `internalCells`:
+the separator is lost).  No guard of its own here: a separator is appended to a node only after an
+append to a leaf below it, i.e. (guard in `insertLeaf`) to a leaf without right sibling; the left half
+of an internal split has only left halves below it - every leaf there has a right sibling - and
+never gets a child without one (new leaves come from splitting such a leaf). -/
 def insertInternal : Nat → Option Nat → Internal → Nat → Nat → Bytes → RootOff → SM RootOff
   | 0, _, _, _, _, _, _ => outOfFuel
   | fuel+1, parent, cur, key, lsn, value, root => do
@@ -379,9 +392,14 @@ def mapS {α β} (f : α → SM β) : List α → SM (List β)
     pure (b :: tl)
 
 def typeOfCode (i : Int) : DataType :=
-  -- `DataType(int64)` truncates to uint8
+  -- `DataType(int64)` truncates to uint8; used for the known codes only (`knownTypeCode`)
   match (i % 256).toNat with
   | 0 => .int | 1 => .varchar | 2 => .boolean | _ => .bigint
+
+/-- is the (truncated) field type one of the four the engine knows?  `getRelationSchema` keeps any byte;
+`FieldDef.Validate` and `Tuple.Decode` panic on another one ("unsupported validation type" / "unsupported
+data type") when they meet a value of such a column that is not NULL, and go through when it is NULL -/
+def knownTypeCode (i : Int) : Bool := (i % 256).toNat ≤ 3
 
 def nameOfBytes (b : Bytes) : String := (String.fromUTF8? (ByteArray.mk b.toArray)).getD ""
 
@@ -393,7 +411,11 @@ def relationSchema (name : Bytes) : SM (List FieldDef) := do
   let mine := rows.filter fun m => get m "table_name" == .str name
   mapS (fun m =>
     match get m "field_name", get m "field_length", get m "field_type" with
-    | .str n, .int len, .int ty => pure (⟨nameOfBytes n, typeOfCode ty, len⟩ : FieldDef)
+    | .str n, .int len, .int ty =>
+      -- `DataType` here has the four known types only: a schema with another type byte (the code returns
+      -- it, and panics later or not, depending on the values) is not predicted
+      if !knownTypeCode ty then unmodelledS "getRelationSchema: field type the engine does not know"
+      else pure (⟨nameOfBytes n, typeOfCode ty, len⟩ : FieldDef)
     | _, _, _ => panicS "getRelationSchema: type assertion") mine
 
 /-- replace the value of the cell `key` in the leaf at `off` (`updateCell` + `markDirty`) -/
